@@ -6,7 +6,7 @@
 
 use crate::dev::{CallRec, ColorKind, Fault, Method, BUDGET_TOKEN};
 use crate::erased::Ad;
-use crate::exec::{run_drawable, DrawRun, RunCfg, CHAIN_KINDS};
+use crate::exec::{run_drawable, DrawRun, RunCfg};
 use crate::json::J;
 use crate::model::R;
 use crate::prop::{Opts, Property, RunOut, Tier, Violation};
@@ -120,7 +120,7 @@ impl Property for C04 {
     }
 
     fn gen(&self, src: &mut Src) -> Scenario {
-        let dev_kind = CHAIN_KINDS[src.draw(3) as usize];
+        let dev_kind = crate::exec::gen_dev_kind(src);
         let (caps, disc) = gen_caps_disc(src);
         // 1 run in 256: display-scale sizes and coordinates (up to 300, stroke widths up to 140)
         let huge = src.draw(256) == 255;
